@@ -195,18 +195,16 @@ func (w *hijackWatch) receive() {
 			if !ok {
 				return
 			}
-			asts, ok := event.Object.(*asv1.StatefulSet)
-			if !ok {
-				panic("unreachable")
+			// Only StatefulSet payloads are converted. Anything else (the
+			// *metav1.Status of an Error event, for example) is relayed as is.
+			if asts, ok := event.Object.(*asv1.StatefulSet); ok {
+				sts, err := ToBuiltinStatefulSet(asts)
+				if err != nil {
+					panic(err)
+				}
+				event.Object = sts
 			}
-			sts, err := ToBuiltinStatefulSet(asts)
-			if err != nil {
-				panic(err)
-			}
-			w.result <- watch.Event{
-				Type:   event.Type,
-				Object: sts,
-			}
+			w.result <- event
 		}
 	}
 }
